@@ -129,9 +129,11 @@ theorem solv_replace_pool {s t : St} {p p' : Pool} (hinv : Solv s)
     have := hbal d
     omega
 
-theorem addLiquidity_solv {s s' : St} {signer sym : String} {n e : Nat} (hs : signer ≠ clpAcct)
-    (hinv : Solv s) (h : addLiquidity s signer sym n e = .ok s') : Solv s' := by
-  unfold addLiquidity at h
+theorem solv_lpCur {s : St} (c : Nat) (h : Solv s) : Solv { s with lpCur := c } := h
+
+theorem addLiquidityCore_solv {s s' : St} {signer sym : String} {n e : Nat} (hs : signer ≠ clpAcct)
+    (hinv : Solv s) (h : addLiquidityCore s signer sym n e = .ok s') : Solv s' := by
+  unfold addLiquidityCore at h
   obtain ⟨_, _, h⟩ := bind_ok h
   obtain ⟨_, _, h⟩ := bind_ok h
   obtain ⟨pool, hp, h⟩ := bind_ok h
@@ -330,9 +332,9 @@ theorem wfp_congr {s s' : St} (hp : s'.pools = s.pools) (h : WFp s) : WFp s' :=
 
 /-- the second leg (or only leg) of a swap plus the payout, from a state whose bank already holds
     the sent coins: bookkeeping equation and bank bound -/
-theorem swap_solv {s s' : St} {signer sent recv : String} {amt mn y : Nat} (hs : signer ≠ clpAcct)
-    (hinv : Solv s) (h : swap s signer sent recv amt mn = .ok (s', y)) : Solv s' := by
-  unfold swap at h
+theorem swapCore_solv {s s' : St} {signer sent recv : String} {amt mn y : Nat} (hs : signer ≠ clpAcct)
+    (hinv : Solv s) (h : swapCore s signer sent recv amt mn = .ok (s', y)) : Solv s' := by
+  unfold swapCore at h
   obtain ⟨_, _, h⟩ := bind_ok h
   obtain ⟨_, _, h⟩ := bind_ok h
   obtain ⟨_, _, h⟩ := bind_ok h
@@ -422,6 +424,16 @@ end Sif.Clp
 
 namespace Sif.Clp
 open Sif Sif.AList Sif.Spec.C01
+
+theorem swap_solv {s s' : St} {signer sent recv : String} {amt mn y : Nat} (hs : signer ≠ clpAcct)
+    (hinv : Solv s) (h : swap s signer sent recv amt mn = .ok (s', y)) : Solv s' := by
+  obtain ⟨s4, c, hc, rfl⟩ := swap_ok h
+  exact solv_lpCur c (swapCore_solv hs hinv hc)
+
+theorem addLiquidity_solv {s s' : St} {signer sym : String} {n e : Nat} (hs : signer ≠ clpAcct)
+    (hinv : Solv s) (h : addLiquidity s signer sym n e = .ok s') : Solv s' := by
+  obtain ⟨s0, c, hc, rfl⟩ := addLiquidity_ok h
+  exact solv_lpCur c (addLiquidityCore_solv hs hinv hc)
 
 theorem addToBucket_solv {s s' : St} {signer d0 : String} {amt : Nat} (hs : signer ≠ clpAcct)
     (hinv : Solv s) (h : addToBucket s signer d0 amt = .ok s') : Solv s' := by
